@@ -95,7 +95,7 @@ Theorem c12_no_lost_wakeup : forall da s c, reachable da s ->
 Proof. exact no_lost_wakeup_l. Qed.
 Print Assumptions c12_no_lost_wakeup.
 
-(* HEADLINE.  The swarm monitor that judges the implementation's traces (all ten
+(* HEADLINE.  The swarm monitor that judges the implementation's traces (all eleven
    clauses: 1 what calls returned, 2 waiter-list length = number of blocked
    waiters, 3 nobody waits once a usable non-limited conn has been added, 4 a
    waiter whose context ended has failed, 5 Connectedness, 6 no relay address
@@ -104,7 +104,8 @@ Print Assumptions c12_no_lost_wakeup.
    or its context ends, 9 a NewStream call is answered ErrLimitedConn only in a step
    in which a non-limited conn was added — never at once, never after dialling a
    limited conn itself, 10 a force-direct BasicHost.Connect reports success only
-   with a non-proxy conn) accepts the trace the model produces for EVERY list of
+   with a non-proxy conn, 11 nobody is waiting while a usable non-limited conn is
+   listed — addConn wakes the waiters before it dispatches Notifiee.Connected) accepts the trace the model produces for EVERY list of
    harness operations (conns arriving/closing, NewStream / DialPeer / Conn.NewStream /
    BasicHost.Connect calls with every option set, cancellations, timeouts, OpenStream and
    dial results, peerstore changes; each: one stimulus, then every call runs until it
